@@ -119,7 +119,7 @@ def known(w, p):
     if 'shadow' in w.flags:
         return 'D9'
     if 'cr' in w.flags:
-        return 'CR-limitation'
+        return 'SKIP:carriage return at end of line (documented limitation)'
     return None
 
 
